@@ -92,12 +92,14 @@ def resize_rule(ctx, p, K):
     for g in gs:
         got |= conj_set(g)
     got = canon_bounds(canon_bounds(got, off_y + yr, off_x + xr, H, W), yr, xr, R0, R1)
-    ctx.ob(rule, f.key + ":copy-guards", got == src_b | dst_b, where=f, node=cp.node, construct=str(sorted(got))[:400],
+    # a destination index that is the variable of a loop starting at 0 is non-negative by construction: that test may be left out
+    implied = {str(norm_cond(CMP(v_, ">=", ZERO))) for v_, l_ in ((yr, cp.loops[0]), (xr, cp.loops[1])) if l_.lo == ZERO and l_.step == ONE}
+    ctx.ob(rule, f.key + ":copy-guards", got <= (src_b | dst_b) and got | implied == src_b | dst_b, where=f, node=cp.node, construct=str(sorted(got))[:400],
            message="a cell is copied exactly when its source lies inside the source array and the cell inside the destination, each index tested against its own axis extent")
     gp = real_guards(pd.guards)
     neg = [g for g in gp if g.kind == "not"]
     pos = [g for g in gp if g.kind != "not"]
-    okp = len(neg) == 1 and canon_bounds(conj_set(neg[0].args[0]), off_y + yr, off_x + xr, H, W) == src_b and canon_bounds(set().union(*[conj_set(g) for g in pos]), yr, xr, R0, R1) == dst_b and pd.idx == (yr, xr)
+    okp = len(neg) == 1 and canon_bounds(conj_set(neg[0].args[0]), off_y + yr, off_x + xr, H, W) == src_b and (canon_bounds(set().union(*[conj_set(g) for g in pos]), yr, xr, R0, R1) | implied) == dst_b and pd.idx == (yr, xr)
     ctx.ob(rule, f.key + ":pad-guards", okp, where=f, node=pd.node, construct="; ".join(map(repr, gp))[:400], message="a destination cell receives pad_value exactly when its source lies outside the source array (and nothing else does)")
     ref = S.env.get(out[0])
     init, shp = getattr(ref, "init", None), getattr(ref, "shape", None)
@@ -269,11 +271,15 @@ def zoom_rule(ctx, p, K):
     c = p.cls("autoarray.structures.arrays.uniform_2d:AbstractArray2D")
     m = c.lookup("zoomed_around_mask")
     cs = wire.calls_to(p, m, f.key)
-    got = {k: norm_text(wire.strip_np_array(v)) for k, v in wire.kw(cs[0], f).items()} if len(cs) == 1 else {}
+    from ..forms import src_poly
+    got = wire.kwr(m, cs[0], f, unpack=True) if len(cs) == 1 else {}   # name-free: temporaries and tuple-unpacked names replaced by what they stand for
     want = {k: canon_src(v) for k, v in {"array_2d": "self.native", "y0": "self.mask.zoom_region[0] - buffer", "y1": "self.mask.zoom_region[1] + buffer", "x0": "self.mask.zoom_region[2] - buffer", "x1": "self.mask.zoom_region[3] + buffer"}.items()}
-    ctx.ob(rule, m.key, got == want, where=m, node=cs[0] if cs else m.node, construct=str(got), message="the zoom window must be the mask's zoom region widened by the buffer on every side, taken from the native values")
+    ctx.ob(rule, m.key, set(got) == set(want) and all(got[k] == want[k] or src_poly(got[k]) == src_poly(want[k]) for k in want), where=m, node=cs[0] if cs else m.node, construct=str(got), message="the zoom window must be the mask's zoom region widened by the buffer on every side, taken from the native values")
     mk = [cc for cc in m.calls() if norm_text(cc.func) == "Mask2D.all_false"]
     kwv = {k: norm_text(v) for k, v in wire.kw(mk[0]).items()} if mk else {}
+    shp = wire.kw(mk[0]).get("shape_native") if mk else None
+    if isinstance(shp, ast.Attribute) and shp.attr == "shape" and cs and wire.is_value_of(m, shp.value, cs[0]):
+        kwv["shape_native"] = "extracted_array_2d.shape"   # the shape of the extracted window, under whatever name it is held
     ctx.ob(rule, m.key + ":geometry", kwv == {"shape_native": "extracted_array_2d.shape", "pixel_scales": "self.pixel_scales", "origin": "self.mask.mask_centre"}, where=m, node=mk[0] if mk else m.node, construct=str(kwv), message="the zoomed array keeps the pixel scales and is centred on the mask centre")
     # zoom region: bounding box of the unmasked pixels, only ever widened
     z = p.cls("autoarray.mask.mask_2d:Mask2D").lookup("zoom_region")
